@@ -40,17 +40,30 @@ func seqEnumerate(alpha []seqSym, depth int, visit func(e seqEdge, src, dst *mSt
 		st   *mState
 		path []int
 	}
-	init := newMState()
-	seen := map[string]bool{init.canon(): true}
+	return seqEnumerateFrom(newMState(), alpha, depth, visit)
+}
+
+func seqEnumerateFrom(init *mState, alpha []seqSym, depth int, visit func(e seqEdge, src, dst *mState)) (nstates int) {
+	type node struct {
+		st   *mState
+		path []int
+	}
+	canon := func(s *mState) string {
+		if s.Timed {
+			return s.canonTimed()
+		}
+		return s.canon()
+	}
+	seen := map[string]bool{canon(init): true}
 	frontier := []node{{init, nil}}
 	for d := 0; d < depth; d++ {
 		var next []node
 		for _, nd := range frontier {
-			srcCanon := nd.st.canon()
+			srcCanon := canon(nd.st)
 			for si, sym := range alpha {
 				dst := nd.st.clone()
 				exp := mApplySym(dst, sym)
-				dc := dst.canon()
+				dc := canon(dst)
 				visit(seqEdge{Path: nd.path, Sym: si, Src: srcCanon, Dst: dc, Exp: exp}, nd.st, dst)
 				if !seen[dc] {
 					seen[dc] = true
